@@ -426,16 +426,21 @@ func hookPoll(n int) []int {
 }
 
 func hookOrder(n int, less func(i, j int) bool, swap func(i, j int)) {
-	s := cur()
-	if s == nil || n < 2 || !s.drawCheck("order") {
+	if n < 2 {
 		return
 	}
+	// the canonical order is established always (also at construction time, outside a
+	// run); the seeded permutation only inside a simulated run
 	if less != nil {
 		for i := 1; i < n; i++ {
 			for j := i; j > 0 && less(j, j-1); j-- {
 				swap(j, j-1)
 			}
 		}
+	}
+	s := cur()
+	if s == nil || !s.drawCheck("order") {
+		return
 	}
 	s.mu.Lock()
 	defer s.mu.Unlock()
